@@ -155,7 +155,7 @@ def run(ctx):
             cmd += ["--replay", ctx.replay]
         else:
             cmd += ["--seed", str(ctx.seed), "--level", "0" if ctx.quick else "1",
-                    "--random", "200" if ctx.quick else "1500"]
+                    "--random", "200" if ctx.quick else "4000"]
         rc, out = vlib.sh(cmd, timeout=3000)
         if rc != 0:
             corr.append(("classrun failed rc=%d" % rc, [out[-500:]]))
